@@ -2,6 +2,7 @@ package sim
 
 import (
 	"fmt"
+	"math"
 	"reflect"
 	"sort"
 	"strings"
@@ -837,6 +838,9 @@ func runMgr(prop string) func(s *Sim) {
 					}
 					if wl.Chance(1, 8) {
 						p.Tombstone = 1
+					}
+					if wl.Chance(1, 16) {
+						p.Value = math.NaN() // the store refuses the whole batch: nobody may be told of any of it
 					}
 					if p.Type == "description" && origin != "" && origin != owner && bigLeft > 0 && wl.Chance(1, 30) {
 						// a message close to the bus's payload limit (1 MiB): it has to reach the client like any other
